@@ -537,6 +537,25 @@ def proxyCall (pl : Placement) (P : Pickle V W) (X : Excs V) (mode : Mode) (para
   | .sameContext => localCall X mode params srv o stubs futureAddr objAddr reqId attr args kwargs token
   | .peerContext => peerCall P X mode params cli srv cc sc o stubs futureAddr objAddr reqId attr args kwargs token
 
+/-! ## the lock token a proxy forwards -/
+
+/-- `_lock_token` of a `QMI_RpcProxy` and of its `rpc_nonblocking` companion -/
+structure ProxyTokens where
+  blocking : Option Token := none
+  nonBlocking : Option Token := none
+  deriving DecidableEq, Repr
+
+/-- what `lock()`, `unlock()` and `force_unlock()` do with the reply of the lock request -/
+inductive LockEvent
+  | lockReply (mine : Token) (theirs : Option Token)     -- `lock()`: granted iff the reply carries my token
+  | unlockReply (theirs : Option Token)                  -- `unlock()`: done iff the reply carries no token
+  | forceUnlockReply (theirs : Option Token)             -- `force_unlock()`: likewise
+
+def ProxyTokens.step (p : ProxyTokens) : LockEvent → ProxyTokens
+  | .lockReply mine theirs => if theirs = some mine then ⟨some mine, some mine⟩ else p
+  | .unlockReply theirs => if theirs = none then ⟨none, none⟩ else p
+  | .forceUnlockReply theirs => if theirs = none then ⟨none, none⟩ else p
+
 /-! ## many callers in one context: futures as registered handlers -/
 
 /-- the caller's context, reduced to what reply routing needs: the per-prefix counter and the
